@@ -247,6 +247,7 @@ def run_notation(ctx, calls, notation, strict, base):
     for is_async in (False, True):
         w = serverside.get_world(is_async, None)
         client = c07.make_client(is_async, w, 'sequential', strict, error_cls)
+        client._vmon_reset = w.log.clear
         w.log.clear()
         cs = [list(c) + [False] if len(c) == 3 else list(c) for c in calls]
         if notation in c07.NOTATIONS_SINGLE:
